@@ -58,6 +58,21 @@ CLAIMED = {
         note="The function theorems carry the hypothesis that the degree is unchanged (kdeg c' = cdeg c), which excludes only "
              "requests containing an end knot: the library re-infers the degree there and then refuses in apply (covered by the "
              "correspondence and by C04_nonvacuous_refused)."),
+    "C07": dict(
+        text="Theorems (Props/C07.v): pieces of the knot-vector split are well-formed; the refinement matrix used by split "
+             "(insertion of every cut up to multiplicity degree+1) preserves the curve at every u (from the C04 development). "
+             "Decided per generated case inside Coq with the exact function oracle: number, order, clamping and limits of "
+             "the pieces, piece == curve on [a,b) (closed for the last piece), polynomial and rational, split() without argument, "
+             "zero/repeated/unsorted/end/outside cuts, operand unchanged; A|B equals A on A's interval and B on B's interval "
+             "(continuous and jump junctions, different degrees, rational operands, non-adjacent -> ValueError); split-then-join "
+             "gives back the original function on the original knot vector (junction knots may keep a lower multiplicity). The "
+             "model of Curve.split is tied by exact differential execution.",
+        design="7/C07",
+        technique="Coq proof (refinement preserves the curve; WF of pieces) + correspondence and exact function oracle by vm_compute",
+        note="The restriction step of split (slicing the refined control points) and the join are decided by the per-case "
+             "oracle, not yet by a for-all theorem (Proofs/SplitProofs.v in progress); join has no executable model yet "
+             "(it goes through degree elevation and knot_clean), so its correspondence is oracle-only. Known finding K6: a "
+             "rational join keeps the junction knot with full multiplicity."),
     "C17": dict(
         text="Unbounded theorems (Props/C17.v), for all well-formed operands whose distinct knots are >= 1e-6 apart: U|V has "
              "degree max(p,q) and, for every value x, multiplicity max of the degree-lifted multiplicities (per-knot maximum at "
